@@ -86,6 +86,9 @@ class TDO(TypedDict):
 PA = TypeVar("PA")
 PB = TypeVar("PB")
 
+type OptDateAlias = datetime.date | None
+NOptDate = NewType("NOptDate", Optional[datetime.date])
+
 @dataclass
 class Pair(Generic[PA, PB], DataClassDictMixin):
     first: PA
@@ -205,6 +208,10 @@ UNION_LOSSY = {"int", "bool", "float", "any", "intenum", "intflag", "num", "newt
                "flag", "litenum"}
 D2_LEAVES = ["int", "date", "mix", "str", "color"]
 EXTRA = [
+    # Optional behind wrappers that do not change the admitted values
+    ("ann_opt_date", "Annotated[Optional[datetime.date], 'm']", ()), ("alias_opt_date", "OptDateAlias", ()),
+    ("newtype_opt_date", "NOptDate", ()), ("ann_alias_opt", "List[Annotated[OptDateAlias, 'm']]", ()),
+    ("uni_alias_opt", "Union[OptDateAlias, int]", ()),
     # PEP 646: fixed items before and after the variadic part (two and three trailing items: index arithmetic of the tail)
     ("tstar_tail2", "Tuple[int, Unpack[Tuple[str, ...]], bool, float]", ()),
     ("tstar_tail3", "Tuple[Unpack[Tuple[int, ...]], str, datetime.date, bool]", ()),
